@@ -1,5 +1,7 @@
 import OxiVerif.Base.Driver
 import OxiVerif.Model.C18
+import OxiVerif.Model.C18Parse
+import OxiVerif.Spec.C18
 /-!
 Driver for C18.  Request / answer formats: see `harness/src/bin/c18.rs`.
 
@@ -14,246 +16,7 @@ ORACLE = the specification side: an independent, strict, TOP-DOWN document-order
 -/
 open OxiVerif OxiVerif.C18
 
-/-! ### parsing -/
-
-def dropStr (n : Nat) (s : String) : String := String.ofList (s.toList.drop n)
-def hasPrefix (s pre : String) : Bool := pre.toList.isPrefixOf s.toList
-
-def parseNat? (s : String) : Option Nat := s.toNat?
-
-def parseInt? (s : String) : Option Int :=
-  match s.toList with
-  | '-' :: r => (String.ofList r).toNat?.map fun n => -(Int.ofNat n)
-  | _ => s.toNat?.map Int.ofNat
-
-/-- decimal token with at most one fractional digit `5`, value ×2 -/
-def parseNum2? (s : String) : Option Int :=
-  let (neg, body) := match s.toList with
-    | '-' :: r => (true, String.ofList r)
-    | _ => (false, s)
-  let v := match body.splitOn "." with
-    | [a] => a.toNat?.map (· * 2)
-    | [a, "5"] => a.toNat?.map (· * 2 + 1)
-    | [a, "0"] => a.toNat?.map (· * 2)
-    | _ => none
-  v.map fun n => if neg then -(Int.ofNat n) else Int.ofNat n
-
-def parseElems (s : String) : List Elem :=
-  if s = "-" then [] else
-  (s.splitOn ",").map fun t => match t.toNat? with
-    | some n => .ref n
-    | none => .junk
-
-def parseRefish (s : String) (other : String → Raw) : Raw :=
-  match s.toList with
-  | '@' :: r => match (String.ofList r).toNat? with
-    | some n => .ref n
-    | none => .junk
-  | ['j'] => .junk
-  | _ => other s
-
-def parseBoxBody (s : String) : Raw :=
-  .nums ((s.splitOn ":").map fun t => if t = "x" then none else parseNum2? t)
-
-def parseKeysBody (s : String) : Raw :=
-  if s = "-" then .keys [] else .keys (s.splitOn "+")
-
-def parseKids (s : String) : Kids :=
-  match s.toList with
-  | '@' :: r => match (String.ofList r).toNat? with
-    | some n => .ref n
-    | none => .junk
-  | ['j'] => .junk
-  | _ => .direct (parseElems s)
-
-def parseField (d : Dict) (f : String) : Option Dict :=
-  match f.splitOn "=" with
-  | [k, v] =>
-    match k with
-    | "T" => some { d with ty := match v with
-        | "P" => .page | "S" => .pages | "X" => .other | _ => .nonName }
-    | "K" => some { d with kids := parseKids v }
-    | "C" => some { d with count := some (parseRefish v fun s => match parseInt? s with
-        | some i => .int i | none => .junk) }
-    | "P" => v.toNat?.map fun n => { d with parent := some n }
-    | "M" => some { d with mb := some (parseRefish v parseBoxBody) }
-    | "B" => some { d with cb := some (parseRefish v parseBoxBody) }
-    | "R" => some { d with rot := some (parseRefish v fun s => match s.toList with
-        | 'r' :: _ => .real
-        | _ => match parseInt? s with
-          | some i => .int i | none => .junk) }
-    | "Z" => some { d with res := some (parseRefish v parseKeysBody) }
-    | "O" => some { d with contents := true }
-    | _ => none
-  | _ => none
-
-def parseObj (s : String) : Option (Nat × Obj) :=
-  match s.splitOn " " with
-  | id :: kind :: fields =>
-    match id.toNat? with
-    | none => none
-    | some n =>
-      match kind, fields with
-      | "D", fs => (fs.foldlM parseField ({} : Dict)).map fun d => (n, .dict d)
-      | "A", [e] => some (n, .arr (parseElems e))
-      | "I", [i] => (parseInt? i).map fun v => (n, .raw (.int v))
-      | "N", [] => some (n, .null)
-      | "S", [_] => some (n, .stream)
-      | "Y", [k] => some (n, .raw (parseKeysBody k))
-      | "B", [b] => some (n, .raw (parseBoxBody b))
-      | _, _ => none
-  | _ => none
-
-structure Req where
-  cat : Nat
-  root : Nat
-  g : Graph
-
-def parseReq (s : String) : Option Req :=
-  match s.splitOn " | " with
-  | head :: objs =>
-    match head.splitOn " " with
-    | ["pt", c, r] =>
-      match c.toNat?, r.toNat?, objs.mapM parseObj with
-      | some c, some r, some os => some { cat := c, root := r, g := os }
-      | _, _, _ => none
-    | _ => none
-  | [] => none
-
-/-! ### printing -/
-
-def showInts (xs : List Int) : String := ",".intercalate (xs.map toString)
-
-def showKeys : Option (List String) → String
-  | none => "none"
-  | some [] => "-"
-  | some ks => "+".intercalate ks
-
-def showPage (p : Page) : String :=
-  s!"{p.id} m={showInts p.mediaBox} c={match p.cropBox with | some b => showInts b | none => "-"} r={p.rotation} z={showKeys p.resources}"
-
-def showPageRes : PageRes → String
-  | .ok p => showPage p
-  | .err => "E"
-  | .fuel => "FUEL"
-
-def modelAnswer (r : Req) : String :=
-  match (r.g.get r.root).asDict with
-  | none => "root-not-dict"
-  | some root =>
-    let rc := readerPageCount r.g root
-    match flatten r.g root with
-    | none => s!"rc={rc} dc=FUEL"
-    | some flat =>
-      let pages := flat.map fun id => " | " ++ showPageRes (loadPage r.g id)
-      let oob := if flat.isEmpty then "" else " | oob=" ++ showPageRes (getPage r.g flat flat.length)
-      s!"rc={rc} dc={flat.length}" ++ String.join pages ++ oob
-
-/-! ### specification side -/
-
-structure SPage where
-  id : Nat
-  mb : Option (List Int)
-  cb : Option (List Int)
-  rot : Int
-  res : Option (List String)
-
-structure Env where
-  mb : Option (List Int) := none
-  cb : Option (List Int) := none
-  rot : Option Int := none
-  res : Option (List String) := none
-
-/-- typed value of an attribute, `none` = not a direct, well-typed value (the strict reading
-does not pronounce on such trees) -/
-def boxVal : Raw → Option (List Int)
-  | .nums xs => if xs.length = 4 then xs.mapM id else none
-  | _ => none
-
-def rotVal : Raw → Option Int
-  | .int i => if -2147483648 ≤ i ∧ i < 2147483648 then some i else none
-  | _ => none
-
-def resVal (g : Graph) : Raw → Option (List String)
-  | .keys ks => some ks
-  | .ref n => match g.get n with
-    | .raw (.keys ks) => some ks
-    | _ => none
-  | _ => none
-
-def kidsStrict (g : Graph) : Kids → Option (List Nat)
-  | .direct es => es.mapM fun e => match e with | .ref n => some n | .junk => none
-  | .ref n => match g.get n with
-    | .arr es => es.mapM fun e => match e with | .ref n => some n | .junk => none
-    | _ => none
-  | _ => none
-
-def updEnv (g : Graph) (d : Dict) (e : Env) : Option Env := do
-  let mb ← match d.mb with | none => some e.mb | some v => (boxVal v).map some
-  let cb ← match d.cb with | none => some e.cb | some v => (boxVal v).map some
-  let rot ← match d.rot with | none => some e.rot | some v => (rotVal v).map some
-  let res ← match d.res with | none => some e.res | some v => (resVal g v).map some
-  pure { mb := mb, cb := cb, rot := rot, res := res }
-
-mutual
-  /-- strict top-down traversal; state = ids already seen; `none` = not strictly well-formed -/
-  def specNode (g : Graph) (fuel : Nat) (id : Nat) (parent : Option Nat) (env : Env)
-      (seen : List Nat) : Option (List SPage × List Nat) :=
-    match fuel with
-    | 0 => none
-    | fuel + 1 =>
-      if id ∈ seen then none else
-      match g.get id with
-      | .dict d =>
-        if d.parent != parent then none else
-        match updEnv g d env with
-        | none => none
-        | some env' =>
-          match d.ty with
-          | .page =>
-            some ([{ id := id, mb := env'.mb, cb := env'.cb, rot := env'.rot.getD 0, res := env'.res }], id :: seen)
-          | .pages =>
-            match kidsStrict g d.kids with
-            | none => none
-            | some ks => specKids g fuel ks id env' (id :: seen)
-          | _ => none
-      | _ => none
-  def specKids (g : Graph) (fuel : Nat) (ks : List Nat) (parent : Nat) (env : Env)
-      (seen : List Nat) : Option (List SPage × List Nat) :=
-    match fuel with
-    | 0 => none
-    | fuel + 1 =>
-      match ks with
-      | [] => some ([], seen)
-      | k :: rest =>
-        match specNode g fuel k (some parent) env seen with
-        | none => none
-        | some (ps, seen') =>
-          match specKids g fuel rest parent env seen' with
-          | none => none
-          | some (qs, seen'') => some (ps ++ qs, seen'')
-end
-
-/-- all ids reachable from the root through /Kids references (any typing), root included -/
-def reach (g : Graph) : Nat → List Nat → List Nat → List Nat
-  | 0, _, seen => seen
-  | _, [], seen => seen
-  | fuel + 1, n :: st, seen =>
-    if n ∈ seen then reach g fuel st seen else
-    match g.get n with
-    | .dict d =>
-      let ks := match d.kids with
-        | .direct es => refsOf es
-        | .ref m => match g.get m with | .arr es => refsOf es | _ => []
-        | _ => []
-      reach g fuel (ks ++ st) (n :: seen)
-    | _ => reach g fuel st (n :: seen)
-
-def totalKids (g : Graph) : Nat :=
-  g.foldl (fun acc e => acc + match e.2 with
-    | .dict d => (match d.kids with | .direct es => es.length | _ => 0)
-    | .arr es => es.length
-    | _ => 0) 0
+/-! ### specification side: `OxiVerif/Spec/C18.lean` -/
 
 structure IPage where
   id : Nat
